@@ -680,13 +680,13 @@ def check_message(rep, D, H, p, m, calls, pa, pv, fvars, mode, sigs, out, extra_
             elif not isinstance(v, SymText) or len(v.items) != ntext:
                 st_, m_ = prove(z3.BoolVal(False), list(extra_assume) + list(pa.pc))
                 rep.violation({"kind": "string-bits", "def": p.id, "field": f.id}, "%s.%s: text has %s characters, field has %d" % (p.id, f.id, len(v.items) if isinstance(v, SymText) else "?", ntext),
-                              {"kind": "field", "def": p.id, "field": f.id, "payload": model_payload(m_) if m_ is not None else "0x0", "what": "string-bits"})
+                              {"kind": "field", "def": p.id, "field": f.id, "payload": model_payload(m_) if m_ is not None else "0x0", "what": "string-bits", "off": f.off, "len": f.len, "index": p.fields.index(f)})
             else:
                 cs = [eq_term(b, SymInt(z3.ZeroExt(1, z3.Extract(8 * (hdr + i_) + 7, 8 * (hdr + i_), fv)))) for i_, b in enumerate(v.items)]
                 st_, m_ = prove(z3.And(*cs), list(extra_assume) + list(pa.pc), label="string-bits/%s" % f.type)
                 if st_ == "sat":
                     rep.violation({"kind": "string-bits", "def": p.id, "field": f.id}, "%s.%s: text is not made of the field's own bytes" % (p.id, f.id),
-                                  {"kind": "field", "def": p.id, "field": f.id, "payload": model_payload(m_), "what": "string-bits"})
+                                  {"kind": "field", "def": p.id, "field": f.id, "payload": model_payload(m_), "what": "string-bits", "off": f.off, "len": f.len, "index": p.fields.index(f)})
             nchk += 1
             continue
         if f.type not in SUPPORTED or not f.fixed:
@@ -979,7 +979,7 @@ def replay(r):
         except Exception as e:
             return True, "decode_string_%s(%#x, %d) raised %r" % (r["fn"], data, r["off"], e)
         text, skip = (res, None) if r["fn"] == "lz" else res
-        n = region[0] - (hdr - 1) - (1 if r["fn"] == "lau" else 0) if r["fn"] == "lau" else region[0]
+        n = region[0] - 2 if r["fn"] == "lau" else region[0]
         raw = region[hdr:hdr + max(n, 0)]
         enc = "utf-16" if (r["fn"] == "lau" and region[1] == 0) else "utf-8"
         exp = raw.rstrip(b"\x00").decode(enc, errors="ignore") if enc == "utf-8" else raw.decode(enc, errors="ignore")
@@ -1049,6 +1049,9 @@ def replay(r):
         if err is not None:
             return True, "raised %r" % (err,)
         g = m.fields[idx]
+        if f.type in ("STRING_LAU", "STRING_LZ"):
+            want = oracle_string(f, raw, ln)
+            return (g.value or "").rstrip("\x00") != want.rstrip("\x00"), "field %s bytes %#x -> %r, expected %r" % (f.id, raw, g.value, want)
         exp = oracle_field(D, f, raw)
         got = (g.value, g.raw_value)
         return not exp(got), "field %s raw %#x -> value %r raw_value %r" % (f.id, raw, g.value, g.raw_value)
@@ -1098,3 +1101,10 @@ def oracle_field(D, f, raw):
             return isinstance(value, str)
         return True
     return chk
+
+
+def oracle_string(f, raw, ln):
+    hdr = 2 if f.type == "STRING_LAU" else 1
+    b = raw.to_bytes(ln // 8, "little")
+    enc = "utf-16" if (f.type == "STRING_LAU" and b[1] == 0) else "utf-8"
+    return b[hdr:].decode(enc, errors="ignore")
